@@ -48,7 +48,34 @@ def run(ctx):
         n = lc.record_and_validate(ctx, tuples, ["u2_cur"], "ObsCanonical", 6, env={"VERIF_CORRUPT": "count"}, expect_reject=True)
         if n == 0:
             raise lc.CheckBroken("binding self-test: a falsified logged counter was accepted by LdiffTrace")
+    if thorough:
+        headsync_extension(ctx)
     ctx.assume("xxhash / blake3 collisions are not modelled (hash terms are symbolic); ids whose 64-bit hashes coincide are not generated")
     ctx.assume("the modelled hash has D = 3..4 digits; deeper trees are covered by the random histories on the real code only")
     ctx.cov["rule"] = ("cases = property evaluations on the real index (one per replayed step / checked random operation / recorded line); "
                        "distinct = distinct (operation kind, parameters, size class) keys")
+
+
+def headsync_extension(ctx):
+    """Extension beyond the listed property: the space-level head-sync round (spec/headsync/HeadSync.tla, checks/X01.py)
+    composes this index with tree sync and deletion; its quick tier is run here as extra coverage of
+    'two peers holding the same entries recognise that they are in sync'. Its verdict is merged: a violation
+    there is reported under its own key, a broken extension never turns into a verdict of C08."""
+    import subprocess
+    env = dict(os.environ)
+    env["VERIF_TIER"] = "quick"
+    env.pop("VERIF_NO_EVIDENCE", None)
+    verif = os.path.dirname(os.path.dirname(os.path.abspath(__file__)))
+    try:
+        p = subprocess.run([os.path.join(verif, "bin", "check"), "X01", "--tier", "quick", "--seed", str(ctx.seed)], cwd=verif, env=env,
+                           stdout=subprocess.PIPE, stderr=subprocess.STDOUT, text=True, errors="replace", timeout=2400)
+    except subprocess.TimeoutExpired:
+        ctx.notes.append("head-sync extension X01 timed out (ignored)")
+        return
+    ctx.cov["headsync_extension_exit"] = p.returncode
+    if p.returncode == 1:
+        for l in p.stdout.splitlines():
+            if l.startswith("  key="):
+                ctx.violation("headsync-extension:" + l.split("key=", 1)[1].split(":", 1)[0], "head-sync round extension (X01): " + l.strip(), None)
+    elif p.returncode != 0:
+        ctx.notes.append("head-sync extension X01 did not run cleanly (exit %s, ignored)" % p.returncode)
